@@ -20,7 +20,7 @@ PROPERTY = 'C03'
 
 META = {
     'bounds': {
-        'quick': 'crowding on ndarray costs n=3; crowding: n<=3,m<=2 and n=4,m=1 exact formula (no ties), n<=3,m<=2 with ties; truncate: n<=4 individuals '
+        'quick': 'truncate populations of 6/9/13 with 1-2 symbolic members (k<=2/3); re-ranked fronts; crowding on ndarray costs n=3; crowding: n<=3,m<=2 and n=4,m=1 exact formula (no ties), n<=3,m<=2 with ties; truncate: n<=4 individuals '
                  '(incl. repeated designs), fronts in 1..3, k in 1..n+1; tournament: n<=3, m<=2',
         'thorough': 'crowding: n=4,m=2 exact formula, n=5,m=1, ties n=4,m=2; truncate n<=5; tournament n<=4',
     },
